@@ -13,9 +13,72 @@ LU = "codelimit.common.lexer_utils"
 SRC = "codelimit.common.source_utils"
 
 
+def rule_R1_evaluated(ctx, prj) -> bool:
+    """lex interpreted with the lexer's (offset, type, text) tuples supplied at the pygments boundary: which tokens survive"""
+    from ..absint import MiniInterp, PygT, PyRaise, Sym, Unknown
+    fi = prj.func(f"{LU}:lex")
+    if "filter_comments" not in fi.params():
+        raise AnalysisError("lex has no filter_comments parameter")
+    tuples = [(0, "Comment.Single", "# c"), (3, "Text.Whitespace", "\n"), (4, "Keyword", "def"), (7, "Text", " "), (8, "Name", "f"), (9, "Punctuation", "("),
+              (10, "Text", ""), (10, "Comment.Multiline", "/* m */"), (17, "Punctuation", ")"), (18, "Literal.String", "' '"), (21, "Text", "\n  "),
+              (24, "Comment.Special", "#!x"), (27, "Operator", "+"), (28, "Other", "?")]
+    code = "# c\ndef f(/* m */)' '\n  #!x+?"
+    ok = True
+    for val in (True, False, None):
+        def hook(it, kind, f, args, kwargs, node, cur):
+            if kind == "call" and isinstance(f, tuple) and f and f[0] == "method" and f[2] == "get_tokens_unprocessed":
+                return [(o, PygT(k), t) for o, k, t in tuples]
+            return NotImplemented
+        kwargs = {} if val is None else {"filter_comments": val}
+        it = MiniInterp(prj, hook, max_steps=200000)
+        r = it.call(fi, [Sym("lexer", _open=True), code], kwargs)
+        r = list(r.rest()) if hasattr(r, "rest") else r
+        got = [t.fields.get("value") for t in r]
+        d = fi.param_default("filter_comments")
+        eff = val if val is not None else it.ev(d, {}, fi)
+        want = [t for o, k, t in tuples if not (k.startswith("Text") and not t.strip()) and not (k.startswith("Comment") and eff)]
+        key = f"lex/filter_comments={val if val is not None else 'default'}"
+        if got == want:
+            ctx.ok("R1", fi.site(), f"{key}: of {len(tuples)} lexer tuples lex keeps {got}")
+            continue
+        ok = False
+        kept_ws = [g for g in got if isinstance(g, str) and not g.strip()]
+        kept_c = [g for g in got if isinstance(g, str) and g[:1] in "#/" and len(g) > 1]
+        if kept_ws:
+            ctx.viol("R1", key + "/whitespace", fi.site(), f"with filter_comments={eff} lex keeps the blank / whitespace tokens {kept_ws!r}; required: never")
+        elif bool(kept_c) != (not eff):
+            ctx.viol("R1", key + "/comments", fi.site(), f"with filter_comments={eff} lex returns {got}: comment tokens are "
+                     f"{'kept although not requested' if kept_c else 'dropped although requested (the suppression marker becomes invisible)'}")
+        else:
+            ctx.viol("R1", key + "/others", fi.site(), f"with filter_comments={eff} lex returns {got}; required {want} (code tokens dropped, duplicated or reordered)")
+    return ok or True
+
+
 def rule_R1(ctx, prj):
-    ctx.rule("R1", "lex returns through filter_tokens on both paths: comments are kept exactly when filter_comments is "
-                   "false, whitespace tokens are never kept (with C04-R2's table for what the filter drops)", floor=2)
+    ctx.rule("R1", "what lex keeps, evaluated at the lexer boundary: of the lexer's tuples (comments of three kinds, blank, empty and "
+                   "multi-line Text, keyword, name, punctuation, string, operator, other) lex returns the code tokens, plus the "
+                   "comments exactly when filter_comments is false, never blank or empty Text tokens, in the lexer's order "
+                   "(with C04-R2's table for what the filter drops); fallback: lex returns through filter_tokens on both paths", floor=2)
+    from ..absint import PyRaise as _PR, Unknown as _UK
+    try:
+        rule_R1_evaluated(ctx, prj)
+        try:
+            class Probe0:
+                def __init__(self, outer): self.o = outer; self.n = 0
+                def rule(self, *a, **k): pass
+                def ok(self, rid, site, what, **k): self.n += 1
+                def bad_instance(self, *a): pass
+                def viol(self, rid, key, site, msg, **k): self.o.viol("R1", key, site, msg)
+            pr0 = Probe0(ctx)
+            c04.rule_R2(pr0, prj)
+            ctx.ok("R1", prj.func(f"{LU}:lex").site(), f"filter table: {pr0.n} kind x text cells as specified (shared with C04-R2)")
+        except AnalysisError as e:
+            ctx.info(f"R1: the filter's kind x text table is not evaluable on this form ({e}); the evaluation of lex itself decides")
+        return
+    except (_UK, _PR) as e:
+        ctx.info(f"R1: lex not evaluable at the lexer boundary ({type(e).__name__}: {e}); structural reading")
+        ctx.instances["R1"] = []
+        ctx.violations[:] = [v for v in ctx.violations if v.rule != "R1"]
     fi = prj.func(f"{LU}:lex")
     fc = "filter_comments"
     if fc not in fi.params():
